@@ -17,7 +17,7 @@ MANIFEST = dict(
     technique='Coq proof (loop invariants with fuel, bit-level rewriting, integer arithmetic over N/Z, finite sweeps by vm_compute) about '
               'algorithm-faithful hand models of the rendered C, C++ and Python support code; extracted-model vs. implementation '
               'correspondence on exhaustive small-parameter sweeps; independent big-integer oracle as falsifier',
-    text='23 theorems (conjunctions of 75 lemmas of Prims/*Thm.v, each named in the proof) + 5 examples in coq/theories/Properties/C14.v, each for EVERY offset, length, buffer, declared size and value (no '
+    text='30 theorems (mostly conjunctions of lemmas of Prims/*Thm.v, each named in the proof) + 5 examples in coq/theories/Properties/C14.v, each for EVERY offset, length, buffer, declared size and value (no '
          'bound; preconditions of the code\'s contract as guards). C (both target_endianness renderings): nunavutCopyBits copies '
          'exactly the addressed bits, leaves every other bit untouched, no out-of-range access (memmove path and bit loop); '
          'SaturateBufferFragmentBitLength; GetBits zero-extends and zero-pads; SetUxx/SetIxx/SetBit report a too-small buffer iff '
@@ -36,7 +36,12 @@ MANIFEST = dict(
          'C++ setZeros(), copyTo(dst), at_offset, set_offset, offset_bytes(_ceil), offset_misalignment, align_offset_to, saturate; Python '
          'Serializer.buffer, skip_bits, arrays of standard primitives incl. the NotImplementedError of the big-endian classes, '
          'ZeroExtendingBuffer get_byte/get_unsigned_slice/fork_bytes) has a model, a theorem and a correspondence stratum; coverage '
-         'table in design_notes/C14.md. Tie: extracted models vs. the headers/module rendered by nnvg from /repo (C any/little/'
+         'table in design_notes/C14.md. Round 5: the SetUxx theorems state their domain off+len < 2^W; outside it the shipped check '
+         'wraps and overruns (C14_set_uxx_offset_wrap_refuted, known finding F-SETUXX-OFFSET-WRAP reproduced on the rendered headers, fix '
+         'patch design_notes/C14_wrap_fix.patch proved correct for every offset); the C theorems are proved for size_t of 32 and 64 bits '
+         '(C14_size_t_widths); the float multiplications of Float16Pack/Unpack are proved equal to Flocq binary32 arithmetic on their '
+         'whole domain (C14_f16_ieee_bridge); Python float members under the named struct packing law; invariant theorems for arbitrary '
+         'sequences of cursor operations incl. the fork/join/header/skip pattern (Python) and store/zero/pad sequences (C++). Tie: extracted models vs. the headers/module rendered by nnvg from /repo (C any/little/'
          'big x asserts on/off, gcc + clang ASan/UBSan; C++14 (17, 20 thorough) x asserts, g++ + clang++ ASan; Python with NumPy) on the '
          'same calls / operation sequences, return values and full buffers with guard bytes compared; thorough: C vs C++ vs NumPy '
          'natively on all 2^32 binary32 inputs.',
@@ -214,12 +219,14 @@ def oracle(line: str) -> typing.Optional[str]:
         nalloc, size, off = int(t[1]), int(t[2]), int(t[3])
         bits = int(t[4]) if c != 'xsubb' else 0
         k, o = (off + bits) // 8, (off + bits) % 8
-        if k > nalloc or size > nalloc:
+        if size > nalloc or (c == 'xsub2' and k > nalloc):
             return None
         if c == 'xsub':
             ns = size - k if k < size else 0
+            k = min(k, size)          # the pointer never passes one past the end of the data
         elif c == 'xsubb':
             ns = min(int(t[4]), size - k if k < size else 0)
+            k = min(k, size)
         else:
             if k > size or o + int(t[5]) > 8 * (size - k):
                 return '-3'
@@ -907,6 +914,12 @@ def gen_py_cases(rng, tier: str) -> typing.List[str]:
                     L.append('pydes %s %s' % (hx(x.to_bytes(size, 'little')), ';'.join(pre + ['us:%d' % b, 'rem'])))
                     if off % 8 == 0:
                         L.append('pydes %s %s' % (hx(x.to_bytes(size, 'little')), ';'.join(pre + ['as:%d' % b, 'rem'])))
+    # degenerate bit lengths: the asserts of the source raise (compared with the model only)
+    for off in (0, 5, 8):
+        for op in ('uu:5:0', 'us:1:1', 'us:0:0', 'au:5:0', 'as:1:1'):
+            L.append('pyser 8 ' + ';'.join(prefix(off) + [op]))
+        for op in ('uu:0', 'us:1', 'us:0', 'au:0', 'as:1'):
+            L.append('pydes 0102 ' + ';'.join((['sk:%d' % off] if off else []) + [op]))
     # random longer sequences
     ser_un = ['uu', 'us', 'ub', 'ubits', 'bit', 'pad', 'uf', 'sk']
     for _ in range(20000 if thorough else 2500):
@@ -1233,8 +1246,13 @@ def main(chk: core.Check, replay: typing.Optional[str] = None) -> int:
         'hand models coq/theories/Prims/CPrims.v (C header), CppPrims.v (C++ bitspan), PyPrims.v (Python Serializer/Deserializer), F16.v '
         '(float16 pack/unpack on integers), function by function, tied by the correspondence runs of this check',
         'platform assumptions written into the models: LP64, little-endian host, 8-bit bytes, unsigned int = 32 bits, conversion to a '
-        'signed integer type is modulo 2^w (gcc/clang), memmove/memset = list splice; IEEE-754 binary32 multiplication by 2^-112 / 2^112 '
-        'in round-to-nearest-even without flush-to-zero (modelled as exponent shift / RNE right shift on the bit pattern)',
+        'signed integer type is modulo 2^w (gcc/clang), memmove/memset = list splice; the float multiplications of Float16Pack/Unpack '
+        'are IEEE-754 binary32 round-to-nearest-even without flush-to-zero: their integer transcription (F16.v) is PROVED equal to '
+        'Flocq 4.1 b32_mult / b32_compare on the whole domain (C14_f16_ieee_bridge, which therefore lists the axioms of the standard '
+        'library Reals: ClassicalDedekindReals.sig_forall_dec, sig_not_dec, functional_extensionality_dep, Classical_Prop.classic); '
+        'no other theorem depends on them',
+        'size_t width: theorems proved for M = 2^32 and M = 2^64 (CPrimsW.v); only the 64-bit instance is run against compiled code '
+        '(no 32-bit runtime in the sandbox)',
         'NumPy/struct semantics used by the Python model: uint8 arithmetic, scalar store (OverflowError above 255), slice assignment '
         '(fits or raises; a length-1 source broadcasts), packbits/unpackbits(bitorder="little"), x.view(uint8) = little-endian image, '
         'struct.pack/unpack("<e|f|d") (Section variable float_to_bytes)',
